@@ -1196,6 +1196,73 @@ SPECS["C03"]["level_text"] += (' Props/C03G (track anch): the vocabulary extende
     'Scope: own-arena anchored slices pushed as one composite; interleaving with register_patch/backfill is the encoder\'s pattern (Props/C01G); foreign '
     'AnchoredSlices, clone/take/arena swap remain C20\'s multi-object vocabulary.')
 
+# ---- track wabs: C03 / C04 / C20 over the FULL multi-object vocabulary (Woodpile.Iovec.WOp, what Driver/Iovec replays) ----
+SPECS["C03"]["lean_modules"] += ["Woodpile.Props.C03W"]
+SPECS["C03"]["theorems"] += [
+    "Woodpile.Props.C03W.ghost_run_is_world_run",
+    "Woodpile.Props.C03W.wop_refines",
+    "Woodpile.Props.C03W.reachable_inv_w",
+    "Woodpile.Props.C03W.other_handles_unchanged",
+    "Woodpile.Props.C03W.named_handle_refines",
+    "Woodpile.Props.C03W.reachable_refines_w",
+    "Woodpile.Props.C03W.fifo_w",
+    "Woodpile.Props.C03W.size_eq_w",
+    "Woodpile.Props.C03W.consume_reports_w",
+    "Woodpile.Props.C03W.no_empty_slice_w",
+    "Woodpile.Props.C03W.ok_run_decidable",
+]
+SPECS["C03"]["level_text"] += (' Props/C03W (track wabs): the FIFO-pipe theorems for EVERY iovec handle of EVERY WOp history (the 38-constructor multi-object vocabulary '
+    'World.step / World.run that Driver/Iovec replays: several iovecs, take, clone, detached arenas with swap / take / flush / read_n, detached anchored slices with '
+    's_split / s_skip / s_clone / push_aslice, new_from_slices / new_from_arena, extend, drops). GW = World + per-handle ghost (consumed log, register counter), '
+    'GW.run IS World.run on the world component (ghost_run_is_world_run); absW g i = the abstraction abs of C03 on handle i; the reference PW is one abstract Pipe per '
+    'handle evolved from the op and its returned value only: pushes append, register registers, backfill fills, consumer calls consume the reported count, clear clears, '
+    'take MOVES the whole pipe to the fresh handle and leaves Pipe.empty, clone COPIES the pipe holes included, new* create, drop forgets, every other call is the identity. '
+    'The invariant is W.IovInv (Proofs/IovecXInv, IovecXAbs, IovecXAnch: the single-iovec development re-proved): slice disjointness - false here, a cloned anchored slice '
+    'can be pushed twice into one iovec - is replaced by what backfill needs (no other slice of the iovec covers a pending placeholder range); it holds for every live iovec of '
+    'EVERY reachable world with no side condition (reachable_inv_w; no_empty_slice_w). wop_refines: one step keeps Rel (every live handle\'s absW = the reference pipe, handle '
+    'count, tokens) and its returned value satisfies specOk; reachable_refines_w / fifo_w / size_eq_w: lifted to every history from World.init, per handle, with the per-handle '
+    'ledger (moved by take, copied by clone); consume_reports_w: every consuming call reports exactly what it removed; named_handle_refines / other_handles_unchanged: the named '
+    'handle changes by the corresponding pipe operation, every other iovec keeps value, invariant and abstraction (a backfill through X included when no slice of the other iovec '
+    'covers a pending placeholder range of X). Side condition of the Rel / run-level statements: FillPrivate at every step (OkRun; decided by running the model, World.okRunB / '
+    'ok_run_decidable): a backfill through X finds no other iovec referencing X\'s pending placeholder memory - it can only fail between an iovec and a clone of it taken while '
+    'the placeholder was pending (Props/C20W), where the real iovecs DO deviate from independent pipes once both sides have filled; what a clone with pending holes means is '
+    'spelled out in the file header.')
+SPECS["C04"]["lean_modules"] += ["Woodpile.Props.C04W"]
+SPECS["C04"]["theorems"] += [
+    "Woodpile.Props.C04W.stable_prefix_has_no_hole_w",
+    "Woodpile.Props.C04W.ok_iff_no_pending_w",
+    "Woodpile.Props.C04W.reachable_allInv",
+    "Woodpile.Props.C04W.all_filled_unblocks_w",
+    "Woodpile.Props.C04W.observed_bytes_immutable_w",
+    "Woodpile.Props.C04W.observed_bytes_immutable_handle",
+    "Woodpile.Props.C04W.observed_bytes_immutable_unshared",
+    "Woodpile.Props.C04W.slices_never_overwritten_w",
+]
+SPECS["C04"]["level_text"] += (' Props/C04W (track wabs): the same clauses for every handle of every WOp history (vocabulary as Props/C03W). '
+    'stable_prefix_has_no_hole_w / ok_iff_no_pending_w: per live handle of every reachable world (reachable_allInv), no side condition; all_filled_unblocks_w: once handle i has '
+    'nothing pending, consumed ++ visible is its whole ledger; observed_bytes_immutable_w: along ANY history in which handle i is not reset (clear i, take i, drop i) - operations on and '
+    'clears of other handles, arena swaps, read_n by other objects, other iovecs\' copies and backfills included - every byte of ghost i ++ visible i (indeed every byte cell of i\'s pipe) '
+    'keeps its position and value (side condition FillPrivate, as C03W); observed_bytes_immutable_handle: the same with the side condition for handle i only (no backfill through another iovec lands in memory i references - whatever other handles do to each other), and i stays live; observed_bytes_immutable_unshared: the same from a per-OBJECT premise (i references no pending placeholder memory of another iovec at the start - e.g. it is empty - and is never cloned while it has a placeholder pending; Props/C20W.unshared_preserved), nothing assumed about the rest of the world; slices_never_overwritten_w: no op but backfill changes a byte any slice of any iovec reads (no side condition).')
+SPECS["C20"]["lean_modules"] += ["Woodpile.Props.C20W"]
+SPECS["C20"]["theorems"] += [
+    "Woodpile.Props.C20W.reachable_base",
+    "Woodpile.Props.C20W.no_share_preserved",
+    "Woodpile.Props.C20W.no_share_along_run",
+    "Woodpile.Props.C20W.this_clone_shares_nothing",
+    "Woodpile.Props.C20W.no_share_moves_with_take",
+    "Woodpile.Props.C20W.no_share_inherited_by_clone",
+    "Woodpile.Props.C20W.fill_private_of_clean_clones",
+    "Woodpile.Props.C20W.unshared_preserved",
+    "Woodpile.Props.C20W.unshared_when_empty",
+    "Woodpile.Props.C20W.private_gives_no_share",
+    "Woodpile.Props.C20W.independent_step_w",
+    "Woodpile.Props.C20W.clone_independent_w",
+]
+SPECS["C20"]["level_text"] += (' Props/C20W (track wabs): the PER-CLONE premise. NoShare w X Y (no slice of iovec Y covers a pending placeholder range of iovec X) is preserved by every '
+    'step of every history for every pair of existing handles (no_share_preserved, no_share_along_run; no premise on how other clones were taken: reachable_base - sane backref '
+    'bookkeeping, no detached anchored slice over any pending range - holds in every reachable world); THIS clone, taken with nothing pending, has NoShare with its original both ways '
+    '(this_clone_shares_nothing); clone_independent_w: after such a clone, along any later history (more clones, pending or not, included) every operation on either side - backfill '
+    'included - leaves the other side\'s model value and the bytes of all its slices unchanged. The global theorems (CReach) are kept; private_gives_no_share relates them.')
 # ---- track apigaps: the remaining public API of owning_iovec (Model/IovecApi.lean, op words of fam_iovec/api.rs)
 SPECS["C03"]["lean_modules"] += ["Woodpile.Props.C03A"]
 SPECS["C03"]["theorems"] += [
